@@ -235,7 +235,7 @@ def rule_clean(ctx):
         it.run(f)
         d = {}
         for (sfi, stmt, tgt, val, conds, depth) in it.store_log:
-            if depth == 0 and tgt[0] == "attr" and isinstance(tgt[1], ObjV) and tgt[1].name == "self":
+            if tgt[0] == "attr" and isinstance(tgt[1], ObjV) and tgt[1].name == "self":      # at any depth: clean() may delegate to __init__ / a helper
                 d[tgt[2]] = (val, stmt)
         vals[f.name] = d
     for name, (v, stmt) in vals["__init__"].items():
